@@ -81,6 +81,16 @@ CHECKS = {
          "Held on 314 (quick) / 8064 (thorough) cases: ~2500 received requests, ~2100 authenticated ones checked per quick run over redirect depth 0-4 and loops, statuses 301/302/303/307/308, nine Location forms, six hop relations, nine credential sources; observed cut-off = 3 requests per walk, identical on every loop.",
          "netrc credentials are keyed by host name only (format has no scheme/port); multistage helpers are injected in-process (git 2.39.5 drops authtype/state); suffix-related host names cannot be built without DNS.",
          "DESIGN.md §5 C10"),
+ "C05": ("exploration",
+         "runtime monitor: prune runs on generated repository states (explicit commit dates far from every window edge, stashes of four shapes, extra worktrees, staged files, detached HEAD, partially pushed branches, tag-only commits) under attribute spellings and ambient Git configurations; store diff vs a deliberately weak must-retain lower bound computed with plain git plumbing; --verify-remote vs the fake server's store; --dry-run",
+         "Held on 66 (quick) / 871 (thorough) prune runs over 18 / 198 repositories x flags {--recent, --force, --verify-remote, --verify-unreachable, --when-unverified, --dry-run} x windows {0,1,3,7} x fetchexclude x 6 attribute spellings x 10 ambient configurations x cwd kinds. Every deleted object is checked against the must-retain clauses (checkout, index, stash additions, recent refs, recent previous versions, unpushed) and, with verification, against the server.",
+         "must-retain is a lower bound (prune keeping more is never flagged): stashes count for what they add to their base commit, commits reachable only from a detached HEAD are not demanded, recent previous versions only for pointer-to-pointer replacements by non-merge commits. Commit ages {0.5,1.5,2.5,5,9,12,30} days keep >= 12 h from every window sum.",
+         "DESIGN.md §5 C05"),
+ "C14": ("exploration",
+         "runtime monitor: generated request programs (Git's client grammar, length 1-40, with and without the delay capability) against one real `git-lfs filter-process` through an independent pkt-line client and a scripted fake server; grammar check, differential against one-shot filters in a twin repository, exactly-once announcement of delayed blobs, bounded emptiness of list_available_blobs in rounds, real-Git delay-capable checkouts, race-instrumented binary in the thorough tier",
+         "Held on 120 programs + 6 real-Git scenarios (quick) / 3000 + 60 (thorough): ~1900 requests per quick run, every success answer compared with the expected content (35 % also against a real one-shot run), every delayed blob announced exactly once and retrieved, failure equivalence with the one-shot filter (exit 2 mid-answer).",
+         "Hang verdicts use wall-clock only after logical quiescence (request fully written and object settled at the fake server / nothing in flight) with 20-90 s watchdogs; other timeouts are inconclusive. Git-lfs never sends status=error/abort; end-of-stream with non-zero exit is accepted exactly where the one-shot twin fails.",
+         "DESIGN.md §5 C14"),
 }
 
 NOT_YET = {}
